@@ -187,3 +187,143 @@ package grpctunnel
 //@   locks r.mu
 //@   assigns nothing
 //@   nopanic[C09]
+
+// ---------------------------------------------------------------------------
+// Interface contracts (what a caller may rely on, whatever the implementation)
+// ---------------------------------------------------------------------------
+
+//@ interface receiver.accept (item)
+//@   assigns nothing
+//@   ensures result == nil || result == errFlowControlWindowExceeded
+//@   effects event:accept
+//@ interface receiver.close ()
+//@   assigns nothing
+//@   effects event:receiver.close
+//@ interface receiver.cancel ()
+//@   assigns nothing
+//@   effects event:receiver.cancel
+//@ interface receiver.dequeue ()
+//@   assigns nothing
+//@   effects event:dequeue
+//@ interface sender.send (data)
+//@   assigns nothing
+//@   effects event:sender.send
+//@ interface sender.updateWindow (add)
+//@   assigns nothing
+//@   effects event:sender.updateWindow
+
+//@ func newSender
+//@   requires sendFunc != nil && ctx != nil
+//@   assigns nothing
+//@   ensures fresh(result)
+//@   ensures[C11] result is *defaultSender
+//@ func newSenderWithoutFlowControl
+//@   requires sendFunc != nil
+//@   assigns nothing
+//@   ensures fresh(result)
+//@   ensures[C11] result is *noFlowControlSender
+//@ func newReceiverWithoutFlowControl
+//@   assigns nothing
+//@   ensures fresh(result)
+
+// ---------------------------------------------------------------------------
+// tunnel_server.go
+// ---------------------------------------------------------------------------
+
+//@ type tunnelServer
+//@   field stream, services, clientAcceptsSettings, tunnelOpts, isClosing immutable
+//@   field streams, lastSeen guarded_by mu
+//@   field mu monitor
+//@   invariant wf : stream != nil && isClosing != nil && tunnelOpts != nil
+//@   invariant[C03,C08,C09,C14] mu : @table streams != nil
+
+//@ funcfield (*tunnelServer).isClosing ()
+//@   assigns nothing
+
+//@ type tunnelServerStream
+//@   field ctx, cancel, svr, streamID, method, stream, isClientStream, isServerStream, sender, receiver immutable
+//@   field halfClosed token
+//@   field readErr guarded_by readMu
+//@   field numSent, headers, trailers, sentHeaders, closed guarded_by writeMu
+//@   field readMu, writeMu monitor
+//@   invariant wf : svr != nil && stream != nil && sender != nil && receiver != nil && cancel != nil && ctx != nil
+//@   invariant[C02,C13] writeMu : @hdrfirst closed ==> sentHeaders
+
+//@ func (*tunnelServer).getStream
+//@   locks s.mu
+//@   assigns nothing
+//@   ensures[C01,C03,C07,C08,C09] @found   old(has(s.streams, streamID)) ==> result0 == old(s.streams[streamID]) && result1 == nil
+//@   ensures[C07,C08,C09]         @late    !old(has(s.streams, streamID)) && streamID <= old(s.lastSeen) ==> result0 == nil && result1 == nil
+//@   ensures[C03,C08,C09]         @unknown !old(has(s.streams, streamID)) && streamID > old(s.lastSeen) ==> result0 == nil && result1 != nil
+//@   ensures[C03,C07]             @readonly s.lastSeen == old(s.lastSeen) && s.streams == old(s.streams)
+//@   effects nosend, nowait
+//@   nopanic[C09]
+
+//@ func (*tunnelServer).removeStream
+//@   locks s.mu
+//@   assigns nothing
+//@   ensures[C14]     @removed  !has(s.streams, streamID)
+//@   ensures[C03,C14] @onlythis forall k int64 :: k != streamID ==> has(s.streams, k) == old(has(s.streams, k))
+//@   ensures[C03,C08] @highwater s.lastSeen == old(s.lastSeen)
+//@   effects nosend, nowait
+//@   nopanic[C09]
+
+//@ func findMethod
+//@   requires sd != nil
+//@   assigns nothing
+//@   loop 1 invariant true
+//@   loop 2 invariant true
+//@   at return#1 assert[C08] @method sd.Methods[i].MethodName == method
+//@   at return#2 assert[C08] @stream sd.Streams[i].StreamName == method
+//@   ensures[C08] @kind result == nil || result is *grpc.MethodDesc || result is *grpc.StreamDesc
+//@   ensures[C09] @nonnilptr result == nil || id(result) != 0
+//@   nopanic[C09]
+
+//@ func fromProto
+//@   assigns nothing
+//@   loop 1 invariant true
+//@   ensures[C02] @nil md == nil ==> result == nil
+//@   ensures[C02] @nonnil md != nil ==> result != nil
+//@   nopanic[C09]
+
+//@ func toProto
+//@   assigns nothing
+//@   loop 1 invariant true
+//@   ensures[C02] @nonnil result != nil
+//@   nopanic[C09]
+
+//@ func (*tunnelServer).createStream
+//@   requires frame != nil && ctx != nil
+//@   ghost closing bool = false
+//@   at aftercall isClosing#1
+//@     ghost closing = result
+//@   locks s.mu
+//@   assigns frame.MethodName
+//@   ensures[C03,C08,C10] @recorded  result0 ==> s.lastSeen == streamID
+//@   ensures[C08]         @refuse    !result0 <==> (old(has(s.streams, streamID)) || streamID <= old(s.lastSeen))
+//@   ensures[C08]         @refused   !result0 ==> result1 != nil && s.lastSeen == old(s.lastSeen) && s.streams == old(s.streams) && count("go") == 0
+//@   ensures[C08]         @refusedtable !result0 ==> forall k int64 :: has(s.streams, k) == old(has(s.streams, k))
+//@   ensures[C10]         @closing   result0 && closing ==> isStatus(result1, codes.Unavailable) && count("go") == 0
+//@   ensures[C10,C14]     @rejecttable result0 && result1 != nil ==> forall k int64 :: has(s.streams, k) == old(has(s.streams, k))
+//@   ensures[C08,C14]     @onespawn  (result0 && result1 == nil) <==> count("go") == 1
+//@   ensures[C08,C14]     @spawnonlyhandler count("go") == count("go:(*tunnelServerStream).serveStream")
+//@   ensures[C14]         @tabled    result0 && result1 == nil ==> has(s.streams, streamID)
+//@   ensures[C14]         @onlyone   forall k int64 :: k != streamID ==> has(s.streams, k) == old(has(s.streams, k))
+//@   ensures[C11]         @badrev    result0 && frame.ProtocolRevision != 0 && frame.ProtocolRevision != 1 ==> isStatus(result1, codes.Unavailable)
+//@   ensures[C09]         @stream    result0 && result1 != nil ==> isStatusErr(result1)
+//@   at call newReceiver#1
+//@     assert[C06] @window arg2 == 65536
+//@   at call newSender#1
+//@     assert[C06] @peerwindow arg1 == frame.InitialWindowSize
+//@     assert[C04,C14] @senderctx arg0 == ctx
+//@     assert[C11] @rev1 frame.ProtocolRevision == 1
+//@   at call newSenderWithoutFlowControl#1
+//@     assert[C11] @rev0 frame.ProtocolRevision == 0
+//@   at call WithTimeout#1
+//@     assert[C18] @deadline arg1 == timeout
+//@   at go#1
+//@     assert[C08,C14] @registered s.streams[streamID] == str && str.streamID == streamID && str.svr == s && str.stream == s.stream
+//@     assert[C08]     @handler    md != nil && arg1 == md && arg0 == str
+//@     assert[C04,C17] @ctx        descends(str.ctx, old(ctx))
+//@     assert[C14]     @cancelfn   str.cancel != nil && str.sender != nil && str.receiver != nil
+//@   nopanic[C09]
